@@ -19,7 +19,8 @@ REQUIRED = {"C15": {"expiry-hop": 500, "expiry-finish": 100, "re-entry-by-next_s
                     "late-first-iteration": 100, "dashboard-edited-duration": 100, "registered-var-read": 100,
                     "in-state-done": 100, "post-end-iteration": 300, "exact-landing-strict": 100, "tie-accepted": 20,
                     "re-entered-timed-state-ran": 50, "states-inherited-through-two-or-more-levels": 100,
-                    "second-mode-with-same-state-names-in-process": 200, "other-mode-ran-between-periods": 50}}
+                    "second-mode-with-same-state-names-in-process": 200, "other-mode-ran-between-periods": 50,
+                    "underscore-named-timed-state": 100}}
 ASSUMPTIONS = {"C15": ["an expiry comparison landing exactly on start+duration is a tie unless every operand lies on the 1/64 s grid"]}
 
 NAMES = ["sa", "sb", "sc", "sd", "se", "sf"]
@@ -35,7 +36,7 @@ def shards(pid, tier, seed):
 
 def gen_case(rng, uid):
     n = rng.choice([1, 2, 3, 3, 4, 5, 6])
-    names = NAMES[:n]
+    names = [("_" + x if rng.random() < 0.15 else x) for x in NAMES[:n]]      # '_settle' is a legal state name
     grid = rng.random() < 0.4
     period = GRID * rng.choice([1, 2, 4]) if grid else rng.choice([20000, 5000, 50000, 10000])
 
@@ -280,6 +281,8 @@ class Driver:
         self.mode = cls()
         if comp and comp["when"] == "after":
             self.other = self._mk_other()
+        if any(st["name"].startswith("_") and st["timed"] for st in case["states"]):
+            self.events["underscore-named-timed-state"] = 1
         if case.get("levels", 1) >= 3 and len({s.get("level") for s in case["states"]}) >= 2:
             self.events["states-inherited-through-two-or-more-levels"] = 1
         self.mode._vf_log = self.log = []
